@@ -418,6 +418,81 @@ def protocol_facts(repo, add):
     add('')
 
 
+WATCHED = ['ping_count_in_sequence', 'last_ping_sent', '_ping_handle', '_close_by_ping_handler']
+
+
+def write_kind(value, aug=None):
+    """classify what is written to a keepalive variable"""
+    if aug is not None:
+        if isinstance(aug, ast.Add) and u(value) == '1':
+            return 'inc'
+        raise Unsupported('augmented assignment ' + u(value))
+    s = u(value)
+    if s == '0':
+        return 'zero'
+    if s == 'None':
+        return 'none'
+    if s == 'time.monotonic()':
+        return 'now'
+    if isinstance(value, ast.Call) and u(value.func) == CALL_LATER:
+        return 'arm'
+    raise Unsupported('value written to a keepalive variable: ' + s)
+
+
+def writers(repo):
+    """every statement in grpclib/ that assigns to (or deletes) one of the keepalive variables, on any
+    object: {attr: [(module:Class.function, kind)]}.  Class-level declarations of Connection are the
+    initial values (checked separately); setattr/__dict__ tricks with these names are refused."""
+    import os
+    out = {a: [] for a in WATCHED}
+    root = os.path.join(repo, 'grpclib')
+    files = []
+    for d, _, fns in os.walk(root):
+        for fn in fns:
+            if fn.endswith('.py'):
+                files.append(os.path.join(d, fn))
+    for path in sorted(files):
+        rel = os.path.relpath(path, repo)
+        src = open(path).read()
+        if not any(a in src for a in WATCHED):
+            continue
+        tree = ast.parse(src, rel)
+        mod = rel[len('grpclib/'):-3].replace('/', '.')
+
+        def visit(node, scope):
+            for ch in ast.iter_child_nodes(node):
+                if isinstance(ch, (ast.ClassDef, ast.FunctionDef, ast.AsyncFunctionDef)):
+                    visit(ch, scope + [ch.name])
+                    continue
+                targets = []
+                if isinstance(ch, ast.Assign):
+                    targets = [(t, ch.value, None) for t in ch.targets]
+                elif isinstance(ch, ast.AugAssign):
+                    targets = [(ch.target, ch.value, ch.op)]
+                elif isinstance(ch, ast.AnnAssign) and ch.value is not None:
+                    targets = [(ch.target, ch.value, None)]
+                elif isinstance(ch, ast.Delete):
+                    for t in ch.targets:
+                        if isinstance(t, ast.Attribute) and t.attr in WATCHED:
+                            raise Unsupported('del of ' + t.attr)
+                for t, v, aug in targets:
+                    elts = t.elts if isinstance(t, (ast.Tuple, ast.List)) else [t]
+                    for e in elts:
+                        if isinstance(e, ast.Attribute) and e.attr in WATCHED:
+                            if len(elts) > 1:
+                                raise Unsupported('tuple assignment to ' + e.attr)
+                            out[e.attr].append(('%s:%s' % (mod, '.'.join(scope)), write_kind(v, aug)))
+                        elif isinstance(e, ast.Name) and e.id in WATCHED and \
+                                not (scope == ['Connection'] and isinstance(ch, ast.AnnAssign)):
+                            raise Unsupported('%s assigned as a plain name in %s' % (e.id, scope))
+                if isinstance(ch, ast.Call) and u(ch.func) in ('setattr', 'delattr', 'object.__setattr__'):
+                    if any(isinstance(a, ast.Constant) and a.value in WATCHED for a in ch.args):
+                        raise Unsupported('setattr on a keepalive variable')
+                visit(ch, scope)
+        visit(tree, [])
+    return out
+
+
 def generate(repo):
     L = []
     add = L.append
@@ -430,6 +505,12 @@ def generate(repo):
     add('')
     config_facts(repo, add)
     protocol_facts(repo, add)
+    add('(* EVERY assignment in grpclib/ to one of the keepalive variables (any object, any module): '
+        '(variable, [(module:Class.function, what is written)]) *)')
+    w = writers(repo)
+    add('Definition keepalive_writers : list (list Z * list (list Z * list Z)) := [\n%s\n].' % ';\n'.join(
+        '  (%s, [%s])' % (zs(a), '; '.join('(%s, %s)' % (zs(f), zs(k)) for f, k in w[a])) for a in WATCHED))
+    add('')
     return '\n'.join(L) + '\n'
 
 
